@@ -92,7 +92,7 @@ UNIT = Tup([])
 INT_TYPES = {"i8": (8, True), "i16": (16, True), "i32": (32, True), "i64": (64, True), "isize": (64, True),
              "u8": (8, False), "u16": (16, False), "u32": (32, False), "u64": (64, False), "usize": (64, False)}
 
-VARIANTS = {"Integer": 0, "Float": 1, "None": 0, "Some": 1, "Ok": 0, "Err": 1, "Less": -1, "Equal": 0, "Greater": 1}
+VARIANTS = {"Integer": 0, "Float": 1, "None": 0, "Some": 1, "Ok": 0, "Err": 1, "Less": -1, "Equal": 0, "Greater": 1, "Continue": 0, "Break": 1}
 
 
 def simp(e):
@@ -365,6 +365,8 @@ class Interp:
             return UNIT
         if t in CONSTS:
             return CONSTS[t]()
+        if re.match(r"^(?:std::option::)?Option::<.*>::None$", t):
+            return Enum("Option", 0, [])
         m = re.match(r"^ZeroSized: (\{closure@.*\})$", t)
         if m:
             return Closure(m.group(1), [])   # a closure that captures nothing
@@ -691,7 +693,7 @@ class Interp:
         fn = self.resolve(callee)
         if fn is not None:
             return self.run(fn, args, st)
-        key = re.sub(r"::<[^>]*(?:<[^>]*>[^>]*)*>", "", callee).replace("std::ops::", "").replace("std::cmp::", "").replace("std::convert::", "")
+        key = re.sub(r"::<[^>]*(?:<[^>]*>[^>]*)*>", "", callee).replace("std::ops::", "").replace("std::cmp::", "").replace("std::convert::", "").replace("std::option::", "")
         h = self.core.get(key) or self.core.get(callee)
         if h is None:
             raise NotEncoded("call to " + callee)
@@ -894,6 +896,19 @@ def _opt_map(it, st, args):
     return out
 
 
+def _try_branch_option(it, st, args):
+    o = args[0]
+    if not (isinstance(o, Enum) and o.ty == "Option"):
+        raise NotEncoded("Try::branch on a non-Option")
+    if o.disc == 1:
+        return [(None, "ret", Enum("ControlFlow", 0, [o.fields[0]]))]
+    return [(None, "ret", Enum("ControlFlow", 1, [Enum("Option", 0, [])]))]
+
+
+def _from_residual_option(it, st, args):
+    return [(None, "ret", Enum("Option", 0, []))]
+
+
 def _deref_all(it, st, v):
     while isinstance(v, Ref):
         v = it.read_at(st, v.fid, v.local, v.path)
@@ -996,6 +1011,11 @@ CORE = {
     "Result::ok": _result_ok,
     "Option::and_then": _and_then,
     "Option::filter": _opt_filter,
+    "<Option<data::number::SimpleNumber> as Try>::branch": _try_branch_option,
+    "<Option<i32> as Try>::branch": _try_branch_option,
+    "<Option<u32> as Try>::branch": _try_branch_option,
+    "<Option<f64> as Try>::branch": _try_branch_option,
+    "<Option<data::number::SimpleNumber> as FromResidual<Option<Infallible>>>::from_residual": _from_residual_option,
     "Option::map": _opt_map,
     "<i32 as PartialOrd>::partial_cmp": _partial_cmp_i32,
     "<f64 as PartialOrd>::partial_cmp": _partial_cmp_f64,
